@@ -214,19 +214,8 @@ theorem request_recreated_lemma (root : Bool) (api : Api) (t : FS) (n : Name) (h
           · cases hok
           · rename_i hgar
             simp only [hgar, if_false]
-            have hnh1 : isHardAt s1 (layerPath n) = false := by
-              cases hh : isHardAt s1 (layerPath n) with
-              | false => rfl
-              | true =>
-                exfalso
-                rcases deleteLayer_hard_fails root s1 n hd1 hh with h | h <;>
-                  · generalize deleteLayer root s1 n = r at h hok
-                    obtain ⟨res, s2⟩ := r
-                    simp only at h
-                    subst h
-                    simp at hok
             have hgone := deleteLayer_gone root s1 n hd1 hb1
-            have hfr := deleteLayer_frame root s1 n hd1 hnh1
+            have hfr := deleteLayer_frame root s1 n hd1
             generalize deleteLayer root s1 n = r at hgone hfr hok
             obtain ⟨res, s2⟩ := r
             cases res with
